@@ -19,6 +19,7 @@ SAFE_IDS = ['a', 'b', 'node1', 'processor__N1', 'processor__N2', 'switch__sw1', 
             'узел', 'with space', 'n' * 120, 'UPPER', 'a-b_c']
 DOT_IDS = ['x', 'x.y', 'x.y.z', 'x.pickle', 'x.json', 'a.b', 'a', 'model.v1', 'model', 'model.v1.final']
 GLOB_IDS = ['a*', 'a?', '[ab]', 'ab', 'a', 'b', '*', 'x[1]', 'x1', '?']
+HIDDEN_IDS = ['.node', '..node', '.node.sub', 'node', '.x', 'x']      # ids with a leading dot (dot-files)
 
 VALUES = [0, 1, -5, 3.25, 'text', 'юникод', '', None, True, [1, 2, 3], {'k': 'v', 'n': [1, {'z': None}]},
           [], {}, [[1], [2, [3]]], 'x' * 300]
@@ -35,10 +36,12 @@ def gen_sequence(rng):
     tags = set()
     if style < 0.55:
         ids = rng.sample(SAFE_IDS, rng.randint(2, 5))
-    elif style < 0.8:
+    elif style < 0.75:
         ids = rng.sample(DOT_IDS, rng.randint(2, 5))
-    else:
+    elif style < 0.9:
         ids = rng.sample(GLOB_IDS, rng.randint(2, 5))
+    else:
+        ids = rng.sample(HIDDEN_IDS, rng.randint(2, 5))
     use_json = rng.random() < 0.4
     use_fail = rng.random() < 0.25
     ctxs = [(rng.choice(['m1', 'm2']), rng.choice(['p1', 'p2', 'p-3'])) for _ in range(rng.randint(1, 3))]
@@ -49,7 +52,8 @@ def gen_sequence(rng):
         if rng.random() < 0.5:
             fmt = 'json' if (use_json and rng.random() < 0.5) else 'pickle'
             if use_fail and rng.random() < 0.3:
-                v = '__UNSERIALISABLE__'
+                # unserialisable as a whole, or only after a serialisable prefix has already been written
+                v = rng.choice(['__UNSERIALISABLE__', '__PARTLY_SERIALISABLE__'])
             elif fmt == 'pickle' and rng.random() < 0.3:
                 v = rng.randrange(len(PICKLE_ONLY))
                 v = ['__PICKLE_ONLY__', v]
@@ -67,7 +71,7 @@ def seq_tags(seq):
     for op in seq['ops']:
         if op[0] == 'save' and op[3] == 'json':
             tags.add('fs_json')
-        if op[0] == 'save' and op[4] == '__UNSERIALISABLE__':
+        if op[0] == 'save' and op[4] in ('__UNSERIALISABLE__', '__PARTLY_SERIALISABLE__'):
             tags.add('fs_failed_save')
     for a in ids:
         for b in ids:
@@ -80,9 +84,15 @@ def seq_tags(seq):
     return sorted(tags)
 
 
+class PartlyUnser(list):
+    """Marker type of a value whose serialisation fails half way (a big serialisable prefix, then an unserialisable item)."""
+
+
 def realise(v):
     if v == '__UNSERIALISABLE__':
         return Unpicklable()
+    if v == '__PARTLY_SERIALISABLE__':
+        return PartlyUnser([list(range(3000)), 'x' * 200000, Unpicklable()])
     if isinstance(v, list) and len(v) == 2 and v[0] == '__PICKLE_ONLY__':
         return PICKLE_ONLY[v[1]]
     return v
@@ -111,7 +121,7 @@ def run_sequence(seq, workdir):
             if kind == 'save':
                 fmt = DataFormat(op[3])
                 val = realise(op[4])
-                unser = isinstance(val, Unpicklable)
+                unser = isinstance(val, (Unpicklable, PartlyUnser))
                 try:
                     await st.save(nid, val, fmt=fmt)
                 except ArtifactAlreadyExists:
